@@ -1,9 +1,9 @@
 SPECIFICATION Spec
 CONSTANTS
   N0 = 4
-  Workers = {1, 2, 3}
-  Kinds = {"seq"}
-  KeySet = {1, 2}
+  Workers = {1, 2}
+  Kinds = {"set"}
+  KeySet = {1, 2, 3}
   Gens = 2
 INVARIANTS NoTornPopulation SizePreserved CallsMatchSize AllFresh OwnRandomness FailureAtomic NoPartialCommit ErrIffFailure SerialDiscipline
 PROPERTIES StepsTerminate
